@@ -726,7 +726,7 @@ Lemma WF_rename s p q : WF s -> wf_op_ord s (Rename p q) = true ->
 Proof.
   intros W Hwf.
   destruct (lookup s (normalize_path p)) as [f|] eqn:Hl.
-  2:{ unfold m_rename. rewrite Hl. split; [exact W | congruence]. }
+  2:{ unfold m_rename. rewrite Hl. match goal with |- context [if ?c then _ else _] => destruct c end; (split; [exact W | congruence]). }
   destruct (beqb (normalize_path p) (normalize_path q)) eqn:Eon.
   { unfold m_rename. rewrite Hl, Eon. split; [exact W | reflexivity]. }
   apply beqb_neq in Eon. destruct (rename_full s p q f W Hwf Hl Eon) as (Hres & W' & _).
